@@ -36,6 +36,7 @@ const (
 	vpFileFlush
 	vpFileClose
 	vpGCRecheck
+	vpFreeSend
 )
 
 // VerifHook is called before every instrumented step of package nitro.
@@ -113,6 +114,7 @@ var VerifPointNames = map[int]string{
 	vpFileFlush:    "FILE_FLUSH",
 	vpFileClose:    "FILE_CLOSE",
 	vpGCRecheck:    "GC_RECHECK",
+	vpFreeSend:     "FREE_SEND",
 }
 
 // VerifRetired lists the snapshot numbers waiting in the dead list.
